@@ -909,3 +909,86 @@ def tuple_state_split(fn: ast.AST) -> bool:
     T().visit(fn)
     ast.fix_missing_locations(fn)
     return True
+
+
+def beta_reduce(fn: ast.AST) -> bool:
+    """A local bound exactly once to a lambda with plain positional parameters: `f(a, b)` becomes the lambda body with
+    the arguments substituted (the binding stays when the name is used otherwise)."""
+    binds: dict[str, list] = {}
+    for n in ast.walk(fn):
+        if isinstance(n, ast.Name) and isinstance(n.ctx, (ast.Store, ast.Del)):
+            binds.setdefault(n.id, []).append(None)
+    lam = {}
+    for n in ast.walk(fn):
+        if isinstance(n, ast.Assign) and len(n.targets) == 1 and isinstance(n.targets[0], ast.Name) and isinstance(n.value, ast.Lambda) \
+                and len(binds.get(n.targets[0].id, [])) == 1:
+            a = n.value.args
+            if not (a.vararg or a.kwarg or a.kwonlyargs or a.defaults or a.posonlyargs):
+                lam[n.targets[0].id] = n.value
+    if not lam:
+        return False
+    changed = False
+
+    class T(ast.NodeTransformer):
+        def visit_Call(self, c):
+            nonlocal changed
+            self.generic_visit(c)
+            if isinstance(c.func, ast.Name) and c.func.id in lam and not c.keywords and not any(isinstance(x, ast.Starred) for x in c.args):
+                l = lam[c.func.id]
+                ps = [x.arg for x in l.args.args]
+                if len(ps) == len(c.args):
+                    m = dict(zip(ps, c.args))
+
+                    class S(ast.NodeTransformer):
+                        def visit_Name(self, n):
+                            return copy.deepcopy(m[n.id]) if n.id in m and isinstance(n.ctx, ast.Load) else n
+
+                    changed = True
+                    return ast.copy_location(S().visit(copy.deepcopy(l.body)), c)
+            return c
+
+    T().visit(fn)
+    if changed:
+        # drop bindings that are no longer referenced
+        used = {n.id for n in ast.walk(fn) if isinstance(n, ast.Name) and isinstance(n.ctx, ast.Load)}
+        for blk in _blocks(fn):
+            blk[:] = [s for s in blk if not (isinstance(s, ast.Assign) and len(s.targets) == 1 and isinstance(s.targets[0], ast.Name)
+                                             and s.targets[0].id in lam and s.targets[0].id not in used)] or [ast.Pass()]
+        ast.fix_missing_locations(fn)
+    return changed
+
+
+def fold_format_constants(fn: ast.AST) -> bool:
+    """f-string parts that are constants (`{'0.3f'}` inside a format spec, `{3}`) become literal text; adjacent literals merge."""
+    changed = False
+
+    class T(ast.NodeTransformer):
+        def visit_JoinedStr(self, j):
+            nonlocal changed
+            self.generic_visit(j)
+            vals = []
+            for v in j.values:
+                if isinstance(v, ast.FormattedValue) and isinstance(v.value, ast.Constant) and isinstance(v.value.value, (str, int)) and not isinstance(v.value.value, bool) \
+                        and v.conversion == -1 and v.format_spec is None:
+                    v = ast.Constant(str(v.value.value))
+                    changed = True
+                if isinstance(v, ast.Constant) and vals and isinstance(vals[-1], ast.Constant) and isinstance(vals[-1].value, str) and isinstance(v.value, str):
+                    vals[-1] = ast.Constant(vals[-1].value + v.value)
+                    changed = True
+                else:
+                    vals.append(v)
+            j.values = vals
+            return j
+
+        def visit_FormattedValue(self, v):
+            nonlocal changed
+            self.generic_visit(v)
+            if isinstance(v.format_spec, ast.JoinedStr) and (not v.format_spec.values or all(isinstance(x, ast.Constant) and x.value == "" for x in v.format_spec.values)):
+                v.format_spec = None  # an empty spec is no spec
+                changed = True
+            return v
+
+    T().visit(fn)
+    if changed:
+        ast.fix_missing_locations(fn)
+    return changed
